@@ -894,13 +894,16 @@ func init() {
 // revisit distance up to maxD — 272 in the quick tier (rings of up to 256 entries wrap), 1,100 in
 // the thorough tier (round 5, C05-A-r5: a 256-entry decode cache whose index goes stale when a
 // hit in the older half is promoted).
-func revisitDistances(r *ev.Run, thorough bool) {
+func revisitDistances(r *ev.Run, thorough bool, vers ...int) {
 	maxD := 272
 	if thorough {
 		maxD = 1100
 	}
+	if len(vers) == 0 {
+		vers = []int{2, 3}
+	}
 	var n int64
-	for _, ver := range []int{2, 3} {
+	for _, ver := range vers {
 		for _, level := range []int{2, 1} {
 			ms := spec.UpTo(ver, level)
 			total := uint64(1)
